@@ -115,7 +115,9 @@ def generate(tier, seed):
             if rng.random() < 0.5:
                 p = p.replace(" " + lit + ")", " " + rng.choice(["9223372036854775807", "-9223372036854775808", "4611686018427387904", "0"]) + ")")
         reqs.append(p)
-    lines = []
+    # the set of bound symbols of a fresh context (every built-in with its kind) must be the model's registration table:
+    # a built-in added to, removed from or re-kinded in the code is outside what the theorems and this campaign cover
+    lines = ["NEW", "INVENTORY"]
     for k, r in enumerate(reqs):
         if k % 8 == 0: lines.append("NEW")
         lines.append("EVAL " + r)
